@@ -14,7 +14,7 @@ EXPLANATION = (
     "R-C11-2 (key domain): a neighbour map built by get_neighbors_of_nodes for a caller-chosen SUBSET has that subset as its key "
     "domain; an unwrapped lookup in such a map (keys are neighbours, which need not be in the subset) is a violation unless an "
     "existence guard dominates it; the map's provenance is followed inter-procedurally through parameters and closure captures.  "
-    "R-C11-5: the edge lookups reachable from the clustering functions obey the edge stores' canonical-key discipline (same rule as R-C02-3), without which a weight is looked up under an orientation it is not stored under.  R-C11-3: the result of the subset-taking functions depends on the node_names argument (restriction is not ignored).  NOT "
+    "R-C11-5: the edge lookups reachable from the clustering functions obey the edge stores' canonical-key discipline (same rule as R-C02-3), without which a weight is looked up under an orientation it is not stored under.  R-C11-3: the result of the subset-taking functions depends on the node_names argument (restriction is not ignored).  R-C11-9: the divisor of each of the four clustering quotients, evaluated as arithmetic over a grid of (degree, reciprocal degree), equals d(d-1) resp. 2(d_tot(d_tot-1) - 2 d_rec) (the description tree is evaluated, graphrs is not run).  NOT "
     "decided: any coefficient's value, the [0,1] range, that subset values equal the full computation's values."
 )
 TRUSTED = ["rustc MIR construction", "CFG paths over-approximate executions; dependence is over-approximated"]
@@ -131,6 +131,45 @@ def run(ctx):
 
     adjacency_name_maps_only_keyed(ctx, prog, flows, "R-C11-6", ("algorithms::cluster",), "so a node without edges gets no coefficient / triangle count and the answer for all nodes disagrees with the answer for a subset")
 
+    # ------------------------------------------------------------------ R-C11-9
+    # the four coefficient formulas of cluster/mod.rs against the definitions: the DIVISOR of each quotient, as an
+    # expression tree over the kernel's degree fields, is evaluated at a grid of (degree, reciprocal degree) points and
+    # compared with d(d-1) (undirected) / 2(d_tot(d_tot-1) - 2 d_rec) (directed, Fagiolo).  Two low-degree polynomials
+    # that agree on the grid are the same polynomial; nothing of graphrs is executed.
+    ctx.rule("R-C11-9", "the denominators of the four clustering-coefficient formulas equal d(d-1) resp. 2(d_tot(d_tot-1) - 2 d_rec) as polynomials in the degree fields")
+    from engines import same_on_grid
+
+    grid9 = [(t_, r_) for t_ in (2.0, 3.0, 5.0, 8.0) for r_ in (0.0, 1.0, 2.0)]
+    n9 = 0
+    for sfx9, want9 in (("cluster::get_clustering_directed", "dir"), ("cluster::get_clustering_directed_weighted", "dir"), ("cluster::get_clustering_undirected", "und"), ("cluster::get_clustering_undirected_weighted", "und")):
+        kb9 = prog.one(sfx9)
+        for b9 in [kb9] + list(prog.closures_of(kb9.path)):
+            f9 = flows.of(b9)
+            for st9 in b9.stmts():
+                if not (st9.k == "assign" and st9.rv.k == "binop" and st9.rv.j["op"] == "Div" and st9.rv.ops[1].place is not None and st9.rv.ops[1].place.ty == "f64"):
+                    continue
+                d9 = norm(f9.describe(st9.rv.ops[1], depth=12))
+
+                def leaf_for(pt, _f9=f9):
+                    def leaf(x):
+                        if isinstance(x, tuple) and x[0] == "place":
+                            last = x[1].split(".")[-1]
+                            if last in ("total_degree", "degree"):
+                                return pt[0]
+                            if last == "reciprocal_degree":
+                                return pt[1]
+                        return None
+                    return leaf
+
+                exp9 = (lambda pt: 2.0 * (pt[0] * (pt[0] - 1.0) - 2.0 * pt[1])) if want9 == "dir" else (lambda pt: pt[0] * (pt[0] - 1.0))
+                r9 = same_on_grid(f9, d9, leaf_for, exp9, grid9)
+                n9 += 1
+                if r9[0] is None:
+                    ctx.undecided("R-C11-9", "denominator|" + sfx9.split("::")[-1], "the divisor in %s is not an arithmetic expression over the degree fields (%s)" % (sfx9.split("::")[-1], fmt_desc(d9)[:120]), loc_str(st9.span))
+                else:
+                    ctx.require(r9[0], "R-C11-9", "denominator|" + sfx9.split("::")[-1], "the denominator in %s is %s" % (sfx9.split("::")[-1], "2(d_tot(d_tot-1) - 2 d_rec)" if want9 == "dir" else "d(d-1)"),
+                                "the denominator in %s is not %s: at (degree, reciprocal degree) = %s it evaluates to %s instead of %s" % (sfx9.split("::")[-1], "2(d_tot(d_tot-1) - 2 d_rec)" if want9 == "dir" else "d(d-1)", r9[1] if not r9[0] else "", r9[2] if not r9[0] else "", r9[3] if not r9[0] else ""), loc_str(st9.span))
+    ctx.floor("R-C11-9", "coefficient_quotients", n9, 4)
     # ------------------------------------------------------------------ R-C11-8
     # Fagiolo's eight directed triangle types: a common neighbour k taken from "predecessors of x" is joined to x by the
     # edge k -> x, one taken from "successors of x" by x -> k.  In the weighted kernel each term multiplies the weights of
